@@ -177,6 +177,26 @@ def catalogue():
     add("formula-parameter-named-like-table-form", "pair", sub(P, F0, "myform(r,tab1) = tab1*exp(-r)"), "cfg", "a parameter named like a table form")
     add("formula-labels-differ-by-case-only", "pair", sub(P, F0, "myform(r,a) = a*exp(-r)\nMYFORM(r,a) = 10*a"), "cfg", "two custom forms whose labels differ by case only")
     add("trans-second-is-modifier", "pair", sub(P, T, "trans(as.lj 0.01 3.0, sum(as.constant 0.25, as.constant 0.25))"), "cfg", "a modifier as the second argument of trans")
+    # ---- found through the round-4 seeding agents' side remarks (all were accepted silently or escaped as internal errors on the pinned tree)
+    B4 = "U-O : spline(as.bornmayer 900.0 0.3 >1.0 buck4_spline 1.5 >2.0 as.buck 0.0 1.0 30.0)"
+    add("buck4-form-rmin-beyond-attach", "pair", sub(P, B4, "U-O : as.buck4 900.0 0.3 30.0 1.0 3.0 2.0"), "cfg", "as.buck4 with r_min beyond r_attach (the shorthand of an ill-formed spline definition)")
+    add("buck4-form-rmin-equals-detach", "pair", sub(P, B4, "U-O : as.buck4 900.0 0.3 30.0 1.0 1.0 2.0"), "cfg", "as.buck4 with r_min equal to r_detach")
+    add("buck4-form-detach-after-attach", "pair", sub(P, B4, "U-O : as.buck4 900.0 0.3 30.0 3.0 2.5 2.0"), "cfg", "as.buck4 with r_detach beyond r_attach")
+    add("buck4-form-valid", "pair", sub(P, B4, "U-O : as.buck4 900.0 0.3 30.0 1.0 1.5 2.0"), "ok", "as.buck4 with r_detach < r_min < r_attach")
+    add("pair-key-empty-first-label", "pair", sub(P, "Si-O : as.buck", "-O : as.buck"), "cfg", "species key with an empty first label")
+    add("pair-key-empty-second-label", "pair", sub(P, "Si-O : as.buck", "Si- : as.buck"), "cfg", "species key with an empty second label")
+    add("pair-key-only-separator", "pair", sub(P, "Si-O : as.buck", "- : as.buck"), "cfg", "species key that is only the separator")
+    add("table-empty-x-y", "pair", sub(P, TF, "x :\ny :\n"), "cfg", "empty x and y entries")
+    add("table-empty-xy", "pair", sub(P, TF, "xy :\n"), "cfg", "empty xy entry")
+    add("table-nan-datum", "pair", sub(P, TF, "x : 0 1 2 3 4\ny : 4 nan 2 1 0\n"), "cfg", "nan among the tabulated values")
+    add("table-inf-x", "pair", sub(P, TF, "x : 0 1 2 3 inf\ny : 4 3 2 1 0\n"), "cfg", "inf among the tabulated x")
+    add("tab-dr-nan", "pair", sub(P, "nr : 8", "dr : nan"), "cfg", "dr that is not a number (nan)")
+    add("tab-cutoff-inf-with-dr", "pair", sub(sub(P, "cutoff : 4.0", "cutoff : inf"), "nr : 8", "dr : 0.5"), "cfg", "infinite cutoff with a step")
+    add("tab-cutoff-nan", "pair", sub(P, "cutoff : 4.0", "cutoff : nan"), "cfg", "cutoff that is not a number (nan)")
+    add("tab-cutoff-inf", "pair", sub(P, "cutoff : 4.0", "cutoff : inf"), "cfg", "infinite cutoff")
+    add("spline-end-potential-singular-at-detach", "pair", sub(P, X, "spline(>=-1 as.buck 1000.0 0.3 32.0 >=0 exp_spline >=1.4 as.buck 1000.0 0.3 32.0)"), "cfg",
+        "spline whose start potential cannot be evaluated at the detach point (division by zero)")
+    add("formula-unparsable-unused", "pair", sub(P, "myform(r,a) = a*exp(-r)", "myform(r,a) = a*exp(-r)\nunused(r,a) = a*(r"), "cfg", "unparsable formula in a form no entry uses")
     add("formula-call-wrong-arity", "pair", sub(P, "myform(r,a) = a*exp(-r)", "myform(r,a) = as.buck(r, a)"), "cfg", "wrong arity in a call")
     return ops
 
